@@ -141,6 +141,61 @@ impl<'a> Inst<'a> {
         self.stored.push((format!("kd{}", id), format!("reed{}", id)));
     }
 
+    /// P14: call/cc as an operand directly in the body of a named procedure, re-entered by that same
+    /// activation (which is still running) after other applications were evaluated
+    fn same_activation_reentry(&mut self) {
+        let id = self.id;
+        let (a, b) = (self.v(), self.v());
+        let times = 1 + self.rng.usize(3);
+        self.tag("re-entry-by-the-capturing-activation");
+        self.emit(&format!("(define ks{id} #f) (define cnt{id} 0) (define out{id} '())", id = id));
+        match self.rng.usize(3) {
+            0 => self.emit(&format!(
+                "(define (fs{id}) (define x (+ {a} (call/cc (lambda (c) (set! ks{id} c) {b})))) (set! cnt{id} (+ cnt{id} 1)) (if (< cnt{id} {t}) (ks{id} (* cnt{id} 10)) x))",
+                id = id, a = a, b = b, t = times + 1
+            )),
+            1 => self.emit(&format!(
+                "(define (fs{id}) (set! out{id} (cons (* 2 (+ {a} (call/cc (lambda (c) (set! ks{id} c) {b})))) out{id})) (set! cnt{id} (+ cnt{id} 1)) (if (< cnt{id} {t}) (ks{id} cnt{id})) out{id})",
+                id = id, a = a, b = b, t = times + 1
+            )),
+            _ => self.emit(&format!(
+                "(define (fs{id} p q) (let ((x (list p (call/cc (lambda (c) (set! ks{id} c) {b})) q))) (set! cnt{id} (+ cnt{id} 1)) (set! out{id} (cons x out{id})) (if (< cnt{id} {t}) (ks{id} (vector cnt{id})) (reverse out{id}))))",
+                id = id, b = b, t = times + 1
+            )),
+        }
+        if self.rng.bool() {
+            self.emit(&format!("(fs{id}{args})", id = id, args = if self.out.contains(&format!("(define (fs{} p q)", id)) { format!(" {} {}", a, b) } else { String::new() }));
+        } else {
+            self.emit(&format!("(list 'wrapped (fs{id}{args}) cnt{id})", id = id, args = if self.out.contains(&format!("(define (fs{} p q)", id)) { format!(" {} {}", a, b) } else { String::new() }));
+        }
+        self.emit(&format!("(list cnt{id} out{id})", id = id));
+    }
+
+    /// P15: the value handed to a continuation is a mutable object that the program also holds elsewhere:
+    /// what call/cc returns must be that very object
+    fn object_through_continuation(&mut self) {
+        let id = self.id;
+        self.tag("mutable-object-passed-to-continuation");
+        let obj = *self.rng.pick(&["(list 1 2 3)", "(vector 1 2 3)", "(cons 1 2)", "(list (list 1) 2)"]);
+        let is_vec = obj.starts_with("(vector");
+        self.emit(&format!("(define po{id} {obj})", id = id, obj = obj));
+        match self.rng.usize(3) {
+            0 => self.emit(&format!("(define ro{id} (call/cc (lambda (k) (k po{id}))))", id = id)),
+            1 => self.emit(&format!("(define ro{id} (car (list (call/cc (lambda (k) (+ 1 (k po{id})))))))", id = id)),
+            _ => {
+                self.emit(&format!("(define ko{id} #f) (define ro{id} (call/cc (lambda (k) (set! ko{id} k) 0)))", id = id));
+                self.emit(&format!("(if (number? ro{id}) (ko{id} po{id}) 'again)", id = id));
+            }
+        }
+        if is_vec {
+            self.emit(&format!("(vector-set! po{id} 0 'changed) (list (vector-ref ro{id} 0) (eq? ro{id} po{id}))", id = id));
+            self.emit(&format!("(vector-set! ro{id} 1 'back) po{id}", id = id));
+        } else {
+            self.emit(&format!("(set-car! po{id} 'changed) (list (car ro{id}) (eq? ro{id} po{id}))", id = id));
+            self.emit(&format!("(set-cdr! ro{id} 'back) po{id}", id = id));
+        }
+    }
+
     /// P3: generator built from two continuations
     fn generator(&mut self) {
         let id = self.id;
@@ -331,7 +386,9 @@ pub fn session(rng: &mut Rng) -> Session {
     let n = 1 + inst.rng.usize(4);
     for j in 0..n {
         inst.id = j + 1;
-        match inst.rng.usize(16) {
+        match inst.rng.usize(19) {
+            18 => inst.object_through_continuation(),
+            16 | 17 => inst.same_activation_reentry(),
             14 | 15 => inst.deep_capture_reentry(),
             0 | 1 | 2 => inst.operand_capture(),
             3 => inst.deep_escape(),
